@@ -66,9 +66,12 @@ def main():
     checks = [pid]; tier = "quick"; skip = "--skip-verify" in sys.argv
     if "--checks" in sys.argv: checks = sys.argv[sys.argv.index("--checks") + 1].split(",")
     if "--tier" in sys.argv: tier = sys.argv[sys.argv.index("--tier") + 1]
-    wt = f"/tmp/seed/{pid}"; out = f"{wt}/OUT"
+    root = "/tmp/seed"; suffix = ""
+    if "--root" in sys.argv: root = sys.argv[sys.argv.index("--root") + 1]
+    if "--suffix" in sys.argv: suffix = sys.argv[sys.argv.index("--suffix") + 1]
+    wt = f"{root}/{pid}"; out = f"{wt}/OUT"
     diff = f"{out}/{var}.diff"; demo = f"{out}/{var}_demo.rs"; md = f"{out}/{var}.md"
-    dest = f"/verif/seeded/{pid}-{var}"
+    dest = f"/verif/seeded/{pid}-{var}{suffix}"
     meta = {"property": pid, "variant": var, "confirmed": {}, "checks": {}}
     if os.path.exists(f"{dest}/meta.json"):
         meta = json.load(open(f"{dest}/meta.json"))
